@@ -5,6 +5,7 @@
   The orchestration layer (both child statuses are checked before any ref, HEAD, index or object
   is touched) is proved over the extracted step table in Frrs/Props/C10Order.lean.
 -/
+import Frrs.FileChange
 import Frrs.Proofs.Monotone
 import Frrs.Filter
 import Frrs.Proofs.Bytes
@@ -129,6 +130,13 @@ theorem run_order : CalledBefore Extracted.runEvents .validateOptions [.prefligh
 
 /-- the data-block limit of the model is the one in limits.rs (extracted on every run) -/
 theorem data_block_limit_is_the_codes : Pipe.constOf Extracted.consts .maxDataBlockSize = some maxDataBlock := by decide +kernel
+
+/-- **a corrupted change line is not hidden from the importer**: a line the filter cannot parse as a file change is forwarded
+    byte for byte whatever the path options are — never dropped, never rebuilt — so the importer sees the corruption and
+    rejects the stream -/
+theorem unparseable_line_is_forwarded (o : PathOpts) (line : Bytes) (h : parseFileChangeLine line = none) :
+    handleFileChangeLine o line = some line := by
+  simp [handleFileChangeLine, h]
 
 /-- **the filtered stream is append-only**: what has been written (to the importer and to fast-export.filtered) at any
     point of a run is a prefix of what the run reports — on success and on failure alike; nothing already sent is taken
